@@ -12,7 +12,40 @@ import (
 	"math"
 	"os"
 	"strconv"
+
+	prand "pgregory.net/rand"
 )
+
+// Random draws of pgregory.net/rand are inputs: under the engine the drawing methods are solver
+// variables (Float64 in [0,1), Uint64n(n) < n, ...); natively the overlaid rand.go consults this
+// hook, which reads the same values from the replay tape.
+func init() {
+	prand.VerifDraw = func(kind string, n uint64) uint64 {
+		switch kind {
+		case "f64", "f32", "u64", "u32":
+			return next(kind)
+		case "u64n":
+			x := next("u64")
+			if n == 0 {
+				return 0
+			}
+			if x >= n {
+				panic(AssumeFailed{})
+			}
+			return x
+		case "u32n":
+			x := next("u32")
+			if n == 0 {
+				return 0
+			}
+			if x >= n {
+				panic(AssumeFailed{})
+			}
+			return x
+		}
+		panic("zzverif: unknown draw kind " + kind)
+	}
+}
 
 type tapeEntry struct {
 	K string `json:"k"`
@@ -172,3 +205,16 @@ func IsSymbolic() bool { return false }
 // when id is listed as "known" in known_findings.json, violations on paths inside the shape are
 // reported as KNOWN-FINDING; everything outside the shape is checked as usual.
 func KnownShape(id string, shape bool) bool { return shape }
+
+// Non-forking boolean combinators: under the engine they build one formula instead of
+// splitting the path the way && and || do.
+func And(a, b bool) bool     { return a && b }
+func Or(a, b bool) bool      { return a || b }
+func Implies(a, b bool) bool { return !a || b }
+func Not(a bool) bool        { return !a }
+func B2I(a bool) int {
+	if a {
+		return 1
+	}
+	return 0
+}
